@@ -450,10 +450,16 @@ def _hypotest_end_to_end(ctx, rid, repo):
         # statistic everywhere (the Asimov hypothesis and what hypotest returns are chosen by comparing the name too)
         ("fifth call, the discovery statistic spelled 'Q0'", "Q0", at("mu_3"), data2, Fraction(3, 2), Fraction(5, 2)),
         ("sixth call, 'QTILDE', sqrt(q) > sqrt(qA)", "QTILDE", at("mu_2"), data1, Fraction(3), Fraction(2)),
+        # the SAME model, statistic, start values, bounds and fixed flags (the very objects of the second call) with OTHER data:
+        # nothing computed for the second call's data may be served again
+        ("seventh call, everything as in the second call except the data", "qtilde", at("mu_2"), [at("d7_0"), at("d7_1")], Fraction(3), Fraction(2)),
     ]
+    reuse_cfg = {"seven": "secon"}
+    cfg_objs = {}
     cdf = lambda x: fn("normal_cdf", to_poly(x))
     for lab, stat, mu, data, s_rep, a_rep in plan:
-        init, bounds, fixed = Obj("init_" + lab[:5]), Obj("bounds_" + lab[:5]), [False, False]
+        ck_ = reuse_cfg.get(lab[:5], lab[:5])
+        init, bounds, fixed = cfg_objs.setdefault(ck_, (Obj("init_" + ck_), Obj("bounds_" + ck_), [False, False]))
         canon = accepted.get(stat)
         if canon is None:
             try:
